@@ -2564,7 +2564,12 @@ impl Engine for Roundtrip {
          non-BMP, build ids of length 0..64, arbitrary GUID/age, regions up to 4 KiB (quick) / 64 KiB (thorough), \
          addresses anywhere in u64 incl. the top of the address space, duplicate directory entries, optional list \
          padding) x {LE,BE} x {MemoryList,Memory64List}; serialized by minidump-synth AND by the Lean encoder, read \
-         by the real crate AND by the Lean decoder; non-trivial = at least one thread, module or memory region"
+         by the real crate AND by the Lean decoder; non-trivial = at least one thread, module or memory region; \
+         PLUS thread contexts as register files (`roundtrip ctx` cases): per architecture with a context record (x86, IA32-on-WIN64, \
+         amd64, ppc, ppc64, sparc, arm, arm64, old arm64, mips) register files with values 0 / all ones / 2^32-1 / pairwise distinct / \
+         boundary / random, flags of this CPU, with dropped bits, or of another CPU, written by a foreign writer (minidump-synth context \
+         sections or documented offsets) and by the Lean encoder, read by the real MinidumpThread::context and by the Lean decoder, \
+         both byte orders, every register by name and alias; non-trivial = a record type with at least one non-zero register"
             .into()
     }
 
